@@ -80,18 +80,35 @@ class _File:
         return getattr(self.f, name)
 
 
-def run_history(max_size, magic, files, batches, crash_k):
+DIR_STYLES = ("abs", "abs-slash", "abs-dotdot", "rel", "rel-dot", "rel-slash")
+
+
+def run_history(max_size, magic, files, batches, crash_k, dirname="blocks", style="abs"):
+    """dirname: the data directory's name below the scratch directory ('/' = nested components);
+    style: how that directory is handed to the library (absolute / relative to the cwd / trailing slash / via x/..)"""
     import builtins
     import bits.p2p as m
     os.makedirs(WORK, exist_ok=True)
     scratch = tempfile.mkdtemp(prefix="c19_", dir=WORK)
-    datadir = os.path.join(scratch, "blocks")
+    datadir = os.path.join(scratch, *dirname.split("/"))          # where the files must end up
     real_open = builtins.open
     saved = (m.MAX_BLOCKFILE_SIZE, m.MAGIC_START_BYTES)
+    saved_cwd = os.getcwd()
     crasher = _Crasher(scratch, crash_k)
+    if style == "abs":
+        dir_arg = datadir
+    elif style == "abs-slash":
+        dir_arg = datadir + "/"
+    elif style == "abs-dotdot":
+        os.makedirs(os.path.join(scratch, "x.tmp"))
+        dir_arg = os.path.join(scratch, "x.tmp", "..", *dirname.split("/"))
+    elif style in ("rel", "rel-dot", "rel-slash"):
+        dir_arg = {"rel": dirname, "rel-dot": "./" + dirname, "rel-slash": dirname + "/"}[style]
+    else:
+        raise ValueError("unknown directory style %r" % (style,))
 
     def wrapped_open(path, mode="r", *a, **kw):
-        if isinstance(path, str) and path.startswith(scratch):
+        if isinstance(path, str) and os.path.abspath(path).startswith(scratch):
             crasher.tick()
             if crash_k is None:
                 # no crash requested: the library sees the REAL file object with Python's default buffering, so that
@@ -110,10 +127,12 @@ def run_history(max_size, magic, files, batches, crash_k):
                 with real_open(os.path.join(datadir, spec_name(n)), "wb") as f:
                     f.write(content)
         m.MAX_BLOCKFILE_SIZE, m.MAGIC_START_BYTES = max_size, magic
+        if style.startswith("rel"):
+            os.chdir(scratch)
         builtins.open = wrapped_open
         try:
             for b in batches:
-                m.write_blocks_to_disk(list(b), datadir)
+                m.write_blocks_to_disk(b, dir_arg)     # the caller's own list object
         except CrashInjected:
             crashed = True
         finally:
@@ -124,13 +143,16 @@ def run_history(max_size, magic, files, batches, crash_k):
                 except Exception:
                     pass
         out = []
-        if os.path.isdir(datadir):
-            for name in sorted(os.listdir(datadir)):
-                with real_open(os.path.join(datadir, name), "rb") as f:
-                    out.append((name, f.read()))
-        return out, crashed
+        for root, dirs, names in os.walk(scratch):               # everything the calls left anywhere below scratch
+            for name in names:
+                full = os.path.join(root, name)
+                rel = os.path.relpath(full, datadir)               # a bare file name when it is where it belongs
+                with real_open(full, "rb") as f:
+                    out.append((rel, f.read()))
+        return sorted(out), crashed
     finally:
         builtins.open = real_open
+        os.chdir(saved_cwd)
         m.MAX_BLOCKFILE_SIZE, m.MAGIC_START_BYTES = saved
         shutil.rmtree(scratch, ignore_errors=True)
 
@@ -138,15 +160,20 @@ def run_history(max_size, magic, files, batches, crash_k):
 IMPL = {
     "history": lambda mx, magic, files, batches: run_history(mx, magic, files, batches, None)[0],
     "history_crash": lambda mx, magic, files, batches, k: run_history(mx, magic, files, batches, k),
+    # the same in a data directory with a given NAME, handed over in a given path STYLE (the model ignores both)
+    "history_at": lambda mx, magic, files, batches, dn, st: run_history(mx, magic, files, batches, None, dn, st)[0],
+    "history_crash_at": lambda mx, magic, files, batches, k, dn, st: run_history(mx, magic, files, batches, k, dn, st),
 }
 
 
 def model_call(c):
+    if c["op"].endswith("_at"):
+        return ("c19_" + c["op"][:-3], c["args"][:-2])
     return ("c19_" + c["op"], c["args"])
 
 
 def canon(c, v):
-    if c["op"] == "history":
+    if c["op"] in ("history", "history_at"):
         return sorted((n, bytes(x)) for n, x in v)
     return [sorted((n, bytes(x)) for n, x in v[0]), bool(v[1])]
 
@@ -232,6 +259,30 @@ def gen_cases(rng, tier):
         sizes = [[rng.choice(alpha + [0, 1, 84, 91]) for _ in range(rng.randrange(0, 5))] for _ in range(nb)]
         files = rng.choice(list(starts.values())) if rng.random() < 0.4 else []
         hist("history-random", files, sizes, mx=rng.choice([100, 100, 120, 300]))
+    # --- data directory NAMES and path styles: the result must not depend on what the directory is called or how its
+    #     path is written (glob / regex / format metacharacters, spaces, unicode, a trailing dot, a block-file name as a
+    #     directory component, nesting; absolute / relative / trailing slash / via ".."); multi-call histories with a
+    #     roll-over so that "which file is current" is re-derived from the listing in such a directory
+    names = ["[1]", "a[b", "x]y", "blk*", "*", "a?b", "{}", "{0}", "%s", "%d%%", "with space", " lead", "trail ",
+             "\u00fcn\u00ef-\u4e2d", "dir.", ".hidden", "blk00001.dat", "blk00000.dat/blk00007.dat", "a/b/c", "[a-z]/[!x]",
+             "~", "$HOME", "-dash", "it's\"q", "back\\slash", "semi;colon&amp", "(paren)", "#hash", "new\nline", "tab\t",
+             "dat.dat", "blk", "x" * 200]
+    at_hists = [([], [[17, 17], [92], [43, 42]]), (starts["one-partial"], [[92, 17], [17]]),
+                (starts["twelve-files"], [[42, 42, 42], [17]]), ([], [[42], [42], [42], [42], [42]])]
+    for i, dn in enumerate(names):
+        styles = DIR_STYLES if T else ("abs", DIR_STYLES[1 + i % 5])
+        for j, st in enumerate(styles):
+            if "\n" in dn and st != "abs" and not T:
+                continue
+            for hi, (files, sizes) in enumerate(at_hists):
+                if T or hi == (i + j) % len(at_hists) or hi == 0:
+                    out.append(case("datadir-name-%s" % st, "history_at", MAX, REGTEST, sorted(files), mk(sizes), dn, st))
+    for st in DIR_STYLES:                     # the plain name in every style, and crash runs in odd directories
+        out.append(case("datadir-name-%s" % st, "history_at", MAX, REGTEST, [], mk([[17, 17], [92], [43, 42]]), "blocks", st))
+    for dn, st in (("[1]", "abs"), ("a?b", "rel"), ("blk*", "abs-slash"), ("with space", "rel-dot")):
+        bs = mk([[42, 43], [17]])
+        for k in range(0, n_prims(bs) + 1, 1 if T else 2):
+            out.append(case("datadir-name-crash", "history_crash_at", MAX, REGTEST, [], bs, k, dn, st))
     # --- beyond 100000 files: outside the theorems' premise; the model still predicts what the code does
     hist("beyond-100000", [(99999, b"\x01" * 50), (100000, b"\x02" * 50)], [[1]])
     hist("beyond-100000", [(99999, b"\x01" * 95)], [[17, 17], [17]])
@@ -282,10 +333,11 @@ def spec_layout(mx, files, records):
 def prop_oracle(c):
     a = c["args"]
     mx, magic, files, batches = a[0], a[1], [tuple(f) for f in a[2]], a[3]
-    k = a[4] if c["op"] == "history_crash" else None
+    k = a[4] if c["op"].startswith("history_crash") else None
+    where = tuple(a[-2:]) if c["op"].endswith("_at") else ("blocks", "abs")
     if any(n >= 99999 - sum(len(b) for b in batches) for n, _ in files):
         return None          # numbering premise of the property (fewer than 100000 files)
-    listing, crashed = run_history(mx, magic, files, batches, k)
+    listing, crashed = run_history(mx, magic, files, batches, k, *where)
     final, err = _numbered(listing)
     if err:
         return err
@@ -356,7 +408,7 @@ def coq_equation(c, mr):
         return None
     files = "[" + "; ".join("(%s, %s)" % (coq_lit(n), coq_bytes(x)) for n, x in a[2]) + "]"
     batches = "[" + "; ".join("[" + "; ".join(coq_bytes(b) for b in batch) + "]" for batch in a[3]) + "]"
-    if c["op"] == "history":
+    if c["op"] in ("history", "history_at"):
         return "c19_history %s %s %s %s = %s" % (coq_lit(a[0]), coq_bytes(a[1]), files, batches, _lit_listing(mr[1]))
     return "c19_history_crash %s %s %s %s %s = (%s, %s)" % (coq_lit(a[0]), coq_bytes(a[1]), files, batches, coq_lit(a[4]),
                                                           _lit_listing(mr[1][0]), coq_lit(bool(mr[1][1])))
